@@ -45,8 +45,16 @@ Fixpoint jenc (top : bool) (g : geom) : json :=
   | GNode _ _ => if top then JNull else JObj []
   end.
 
-(* None: ensureNoCurvedComponents throws, nothing is written *)
-Definition json_encode (g : geom) : option json := if has_curved g then None else Some (jenc true g).
+(* a CompoundCurve / CurvePolygon / MultiCurve / MultiSurface node anywhere: encodeGeometry throws UnsupportedOperationException *)
+Fixpoint has_curve_family (g : geom) : bool :=
+  match g with
+  | GLeaf _ _ _ => false
+  | GNode KCompoundCurve _ | GNode KCurvePolygon _ | GNode KMultiCurve _ | GNode KMultiSurface _ => true
+  | GNode _ l => existsb has_curve_family l
+  end.
+
+(* None: ensureNoCurvedComponents or encodeGeometry throws, nothing is written *)
+Definition json_encode (g : geom) : option json := if has_curved g || has_curve_family g then None else Some (jenc true g).
 
 (* ---- reader *)
 Fixpoint lookup (k : string) (l : list (string * json)) : option json :=
